@@ -355,3 +355,171 @@ func eqNalus(a [][]byte, b [][]byte) bool {
 	}
 	return true
 }
+
+// ---- descriptors built from parameter sets that the syntax specs serialised (AvcSyntax.tla / HevcSyntax.tla):
+// the sample entry and its configuration record must state the coded values, before and after encode / decode.
+
+func init() {
+	register("c19-psets", c19Psets)
+}
+
+type c19Entry struct {
+	Type                string
+	Width, Height       int
+	Profile, Level      int
+	Compat              int
+	Chroma, Bdl, Bdc    int
+	SpsVerbatim, HasRec bool
+}
+
+func c19ProjectEntry(ini *mp4.InitSegment, sps []byte) (c19Entry, error) {
+	var e c19Entry
+	if ini == nil || ini.Moov == nil || ini.Moov.Trak == nil {
+		return e, fmt.Errorf("no trak")
+	}
+	stsd := ini.Moov.Trak.Mdia.Minf.Stbl.Stsd
+	if len(stsd.Children) != 1 {
+		return e, fmt.Errorf("%d sample entries", len(stsd.Children))
+	}
+	v, ok := stsd.Children[0].(*mp4.VisualSampleEntryBox)
+	if !ok {
+		return e, fmt.Errorf("entry is %T", stsd.Children[0])
+	}
+	e.Type, e.Width, e.Height = v.Type(), int(v.Width), int(v.Height)
+	switch {
+	case v.AvcC != nil:
+		r := v.AvcC.DecConfRec
+		e.HasRec = true
+		e.Profile, e.Compat, e.Level = int(r.AVCProfileIndication), int(r.ProfileCompatibility), int(r.AVCLevelIndication)
+		e.Chroma, e.Bdl, e.Bdc = int(r.ChromaFormat), int(r.BitDepthLumaMinus1), int(r.BitDepthChromaMinus1)
+		e.SpsVerbatim = len(r.SPSnalus) == 1 && bytes.Equal(r.SPSnalus[0], sps)
+	case v.HvcC != nil:
+		r := v.HvcC.DecConfRec
+		e.HasRec = true
+		e.Profile, e.Level = int(r.GeneralProfileIDC), int(r.GeneralLevelIDC)
+		e.Chroma, e.Bdl, e.Bdc = int(r.ChromaFormatIDC), int(r.BitDepthLumaMinus8), int(r.BitDepthChromaMinus8)
+		got := r.GetNalusForType(hevc.NALU_SPS)
+		e.SpsVerbatim = len(got) == 1 && bytes.Equal(got[0], sps)
+	}
+	return e, nil
+}
+
+func c19Psets(args []string) error {
+	rep := newReport()
+	avcPps := []byte{0x68, 0xce, 0x38, 0x80}
+	hvVps := []byte{0x40, 0x01, 0x0c, 0x01, 0xff, 0xff, 0x01, 0x60}
+	hvPps := []byte{0x44, 0x01, 0xc1, 0x72, 0xb4, 0x62, 0x40}
+	err := readLines(argValue(args, "-in", "-"), func(line []byte) error {
+		var c struct {
+			Codec  string          `json:"codec"`
+			V      json.RawMessage `json:"v"`
+			Nal    []int           `json:"nal"`
+			Width  int             `json:"width"`
+			Height int             `json:"height"`
+			Chroma int             `json:"chroma"`
+		}
+		if err := json.Unmarshal(line, &c); err != nil {
+			return err
+		}
+		sps := ints2bytes(c.Nal)
+		var want c19Entry
+		var entryTypes []string
+		high := false
+		if c.Codec == "avc" {
+			var v avcSpsV
+			if err := json.Unmarshal(c.V, &v); err != nil {
+				return err
+			}
+			high = highProfiles[v.Profile]
+			want = c19Entry{Profile: v.Profile, Compat: v.Compat, Level: v.Level, Chroma: v.Chroma, Bdl: v.Bdl, Bdc: v.Bdc}
+			entryTypes = []string{"avc1", "avc3"}
+		} else {
+			var v hvSpsV
+			if err := json.Unmarshal(c.V, &v); err != nil {
+				return err
+			}
+			if v.Bdl > 7 || v.Bdc > 7 {
+				rep.Count(string(line), false, nil) // hvcC has 3-bit depth fields
+				return nil
+			}
+			want = c19Entry{Profile: v.Ptl.Idc, Level: v.Ptl.Level, Chroma: v.Chroma, Bdl: v.Bdl, Bdc: v.Bdc}
+			entryTypes = []string{"hvc1", "hev1"}
+		}
+		if c.Width > 65535 || c.Height > 65535 {
+			rep.Count(string(line), false, nil)
+			return nil
+		}
+		want.Width, want.Height, want.SpsVerbatim, want.HasRec = c.Width, c.Height, true, true
+		for _, et := range entryTypes {
+			cs := J{"codec": c.Codec, "entry": et, "sps": fmt.Sprintf("%x", sps), "width": c.Width, "height": c.Height}
+			func() {
+				defer func() {
+					if r := recover(); r != nil {
+						rep.Violation("psets/"+c.Codec+"/panic", fmt.Sprintf("building the init segment panics: %v", r), cs)
+					}
+				}()
+				ini := mp4.CreateEmptyInit()
+				ini.AddEmptyTrack(90000, "video", "und")
+				var err error
+				if c.Codec == "avc" {
+					err = ini.Moov.Trak.SetAVCDescriptor(et, [][]byte{sps}, [][]byte{avcPps}, true)
+				} else {
+					err = ini.Moov.Trak.SetHEVCDescriptor(et, [][]byte{hvVps}, [][]byte{sps}, [][]byte{hvPps}, nil, true)
+				}
+				if err != nil {
+					rep.Violation("psets/"+c.Codec+"/descriptor-error", "descriptor cannot be set from a valid SPS: "+err.Error(), cs)
+					return
+				}
+				w := want
+				w.Type = et
+				judge := func(stage string, ini *mp4.InitSegment) {
+					got, err := c19ProjectEntry(ini, sps)
+					if err != nil {
+						rep.Violation("psets/"+c.Codec+"/"+stage+"/unreadable", err.Error(), cs)
+						return
+					}
+					if c.Codec == "avc" && !high {
+						got.Chroma, got.Bdl, got.Bdc = w.Chroma, w.Bdl, w.Bdc // not carried by avcC outside the high profiles
+					}
+					if got != w {
+						field := "other"
+						switch {
+						case got.Width != w.Width || got.Height != w.Height:
+							field = "dimensions"
+						case got.Chroma != w.Chroma || got.Bdl != w.Bdl || got.Bdc != w.Bdc:
+							field = "chroma-or-bit-depth"
+						case got.Profile != w.Profile || got.Level != w.Level || got.Compat != w.Compat:
+							field = "profile-or-level"
+						case !got.SpsVerbatim:
+							field = "sps-not-verbatim"
+						}
+						rep.Violation("psets/"+c.Codec+"/"+stage+"/"+field, fmt.Sprintf("sample entry says %+v, the supplied SPS codes %+v", got, w), cs)
+					}
+					if tk := ini.Moov.Trak.Tkhd; int(tk.Width>>16) != w.Width || int(tk.Height>>16) != w.Height {
+						rep.Violation("psets/"+c.Codec+"/"+stage+"/tkhd-dimensions", fmt.Sprintf("tkhd %dx%d, SPS %dx%d", tk.Width>>16, tk.Height>>16, w.Width, w.Height), cs)
+					}
+				}
+				judge("built", ini)
+				var buf bytes.Buffer
+				if err := ini.Encode(&buf); err != nil {
+					rep.Violation("psets/"+c.Codec+"/encode-error", err.Error(), cs)
+					return
+				}
+				if f, err := mp4.DecodeFile(bytes.NewReader(buf.Bytes())); err != nil || f.Init == nil {
+					rep.Violation("psets/"+c.Codec+"/decode-error", fmt.Sprint(err), cs)
+				} else {
+					judge("decoded", f.Init)
+				}
+				if f, err := mp4.DecodeFileSR(bits.NewFixedSliceReader(buf.Bytes())); err != nil || f.Init == nil {
+					rep.Violation("psets/"+c.Codec+"/decode-error-sr", fmt.Sprint(err), cs)
+				} else {
+					judge("decoded-sr", f.Init)
+				}
+			}()
+		}
+		rep.Count(string(line), true, nil)
+		return nil
+	})
+	rep.Done()
+	return err
+}
